@@ -32,7 +32,7 @@ RULE = ('2-4 real clients on the real built-in bus; 1-2 exporters with generated
 STATE_MEASURE = 'distinct (clients, proxy kind, calls in flight, outcome kind) tuples'
 PROBES = ['proxy-introspected', 'proxy-explicit', 'proxy-by-name', 'three-calls-in-flight',
           'two-callers-one-exporter', 'remote-error-mirrored', 'call-to-second-exporter',
-          'same-serial-two-clients', 'reply-split-across-reads', 'exporter-calls-itself-through-bus']
+          'same-serial-two-clients', 'exporter-calls-itself-through-bus', 'big-endian-foreign-call']
 COMPONENTS = {
     'real': ['txdbus.bus.Bus / BusProtocol (routing, Hello, RequestName)', 'BusAuthenticator + '
              'mechanisms', 'txdbus.client.DBusClientConnection x 2-4', 'txdbus.objects (proxies, '
@@ -185,8 +185,36 @@ def scenario(ctx):
                     and not other['obs'].fired:
                 sim.probe('same-serial-two-clients')
 
+    # a foreign (non-txdbus) client on the same bus: calls the exporters with reference-encoded
+    # messages, some of them big-endian, interleaved with the proxies' little-endian traffic
+    foreign = rig.add_peer() if ds.flag(0.4) else None
+    fcalls = []
+
+    def foreign_call():
+        s = services[ds.choose(len(services))]
+        cands = [(d, m) for d in s['cs'].all_ifaces() for m in d.methods]
+        if not cands:
+            return
+        d, (mn, si, so) = cands[ds.choose(len(cands))]
+        ref = gen.body(ds, si)
+        little = ds.flag(0.4)
+        if not little:
+            sim.probe('big-endian-foreign-call')
+        p = foreign['proto']
+        m = p.send(rc.Msg(rc.METHOD_CALL, p.next_serial(),
+                          {rc.F_PATH: s['path'], rc.F_INTERFACE: d.name, rc.F_MEMBER: mn,
+                           rc.F_DESTINATION: s['name']}, si, ref, little=little))
+        fcalls.append({'svc': s, 'iface': d.name, 'member': mn, 'sig_in': si, 'sig_out': so,
+                       'ref': ref, 'serial': m.serial})
+        sim.log('op', 'foreign-call', d.name, mn, si, little)
+
     def extra():
         ops = []
+        if budget[0] > 0 and foreign is not None:
+            def fop():
+                budget[0] -= 1
+                foreign_call()
+            ops.append(('foreign', fop))
         if budget[0] > 0:
             ready = [p for p in proxies if p['prox'] is not None]
             if ready:
@@ -285,6 +313,40 @@ def scenario(ctx):
                                        if kind == 'err' and val.check(t_error.RemoteError)
                                        else getattr(val, 'value', val)))
                 sim.state((nclients, p['kind'], 'raise'))
+    # the foreign client's calls: exactly one reply each, mirroring the implementation
+    for fc in fcalls:
+        p = foreign['proto']
+        rs = [m for m in p.messages if m.fields.get(rc.F_REPLY_SERIAL) == fc['serial']
+              and m.mtype in (rc.METHOD_RETURN, rc.ERROR)]
+        what = 'foreign call %s.%s(%r)' % (fc['iface'], fc['member'], fc['ref'])
+        if len(rs) != 1:
+            raise Violation('C11/completion', 'foreign call: %d replies' % len(rs),
+                            '%s got %d replies' % (what, len(rs)))
+        key = (fc['svc']['exp']['name'], p.unique, fc['serial'])
+        rec = invocations.get(key)
+        if rec is None:
+            raise Violation('C11/not-invoked', 'foreign', '%s never reached its implementation; '
+                            'reply %r' % (what, rs[0].describe()))
+        rec['claimed'] = True
+        if rc.canon(rec['args']) != rc.canon(rc.plain_body(fc['sig_in'], fc['ref'])):
+            raise Violation('C11/arguments', 'foreign differ', '%s: implementation got %r'
+                            % (what, rec['args']))
+        out = rec['out']
+        r = rs[0]
+        if out[0] == 'value':
+            if r.mtype != rc.METHOD_RETURN or (r.sig or '') != (fc['sig_out'] or '') or \
+                    rc.canon(rc.plain_body(r.sig, r.body)) != rc.canon(rc.plain_body(fc['sig_out'], out[1])):
+                raise Violation('C11/return-value', 'foreign differs',
+                                '%s: implementation returned %r, reply is %r'
+                                % (what, out[1], r.describe()))
+        else:
+            _, cls, text = out
+            name = cls.dbusErrorName if hasattr(cls, 'dbusErrorName') else \
+                'org.txdbus.PythonException.' + cls.__name__
+            if r.mtype != rc.ERROR or r.fields.get(rc.F_ERROR_NAME) != name:
+                raise Violation('C11/remote-error', 'foreign ' + cls.__name__,
+                                '%s: implementation raised %s, reply is %r' % (what, cls.__name__,
+                                                                              r.describe()))
     unclaimed = [k for k, r in invocations.items() if not r.get('claimed')]
     if unclaimed:
         raise Violation('C11/spurious-invocation', 'extra', 'invocations without a call: %r'
